@@ -16,7 +16,7 @@ module-level `random` (`rnd.random`, `uniform`, an `Oracle`: every value the ran
   `Random.random() < prob` per element            `keep part j`
 ValueError("Sample larger than population")     `Res.valueError`;  IndexError / StopIteration of `choices`
                                                 on an empty population: `Res.otherError`
-graph construction never returns                `Res.hang`
+ValueError for `split_every < 2 < …` (see BagReduce)  `Res.splitEveryError`
 Import-free (linked into the native driver).
 -/
 namespace Dask.BagSample
@@ -33,7 +33,7 @@ inductive Res (α : Type) where
   | ok (xs : List α)
   | valueError
   | otherError
-  | hang
+  | splitEveryError
   deriving Repr, BEq, DecidableEq
 
 /-! ## `_sample_map_partitions` (reservoir algorithm L) -/
@@ -123,7 +123,7 @@ def finalize (k : Nat) (sn : List α × Nat) : Res α := if sn.1.length < k then
 def sample (O : Oracle) (k se : Nat) (parts : List (List α)) : Res α :=
   match reductionIx (fun i p => sampleMapPartitions k (O.geom i) (O.slot i) p)
       (fun depth i inputs => sampleReduce k (O.key depth i) inputs) se parts with
-  | none => .hang
+  | none => .splitEveryError
   | some sn => finalize k sn
 
 /-- `bag.random.choices(population, k, split_every)`; errors inside tasks are carried as `none` -/
@@ -133,7 +133,7 @@ def choices (O : Oracle) (k se : Nat) (parts : List (List α)) : Res α :=
         match inputs.mapM id with
         | none => none
         | some ins => choicesReduce k (O.pick depth i) ins) se parts with
-  | none => .hang
+  | none => .splitEveryError
   | some none => .otherError
   | some (some sn) => finalize k sn
 
